@@ -35,21 +35,23 @@ func (op *PRelu) Apply(inputs []tensor.Tensor) ([]tensor.Tensor, error) {
 		return nil, err
 	}
 
-	y := tensor.NewDense(x.Dtype(), x.Shape())
+	// The data of a scalar tensor is a bare value instead of a list, and the data of a
+	// scalar result can not be written to: compute into a new list and build the result from it.
+	var result any
 
 	switch x.Dtype() {
 	case tensor.Float32:
-		err = calcPRelu[float32](y.Data(), x.Data(), slope.Data())
+		result, err = calcPRelu[float32](x.Data(), slope.Data())
 	case tensor.Float64:
-		err = calcPRelu[float64](y.Data(), x.Data(), slope.Data())
+		result, err = calcPRelu[float64](x.Data(), slope.Data())
 	case tensor.Uint32:
-		err = calcPRelu[uint32](y.Data(), x.Data(), slope.Data())
+		result, err = calcPRelu[uint32](x.Data(), slope.Data())
 	case tensor.Uint64:
-		err = calcPRelu[uint64](y.Data(), x.Data(), slope.Data())
+		result, err = calcPRelu[uint64](x.Data(), slope.Data())
 	case tensor.Int32:
-		err = calcPRelu[int32](y.Data(), x.Data(), slope.Data())
+		result, err = calcPRelu[int32](x.Data(), slope.Data())
 	case tensor.Int64:
-		err = calcPRelu[int64](y.Data(), x.Data(), slope.Data())
+		result, err = calcPRelu[int64](x.Data(), slope.Data())
 	default:
 		return nil, ops.ErrInvalidInputType(0, x.Dtype().String(), op)
 	}
@@ -57,6 +59,8 @@ func (op *PRelu) Apply(inputs []tensor.Tensor) ([]tensor.Tensor, error) {
 	if err != nil {
 		return nil, err
 	}
+
+	y := tensor.New(tensor.WithShape(x.Shape()...), tensor.WithBacking(result))
 
 	return []tensor.Tensor{y}, nil
 }
@@ -100,35 +104,26 @@ func (op *PRelu) String() string {
 	return "prelu operator"
 }
 
-func calcPRelu[T float32 | float64 | uint32 | uint64 | int32 | int64](result any, input any, slope any) error {
-	var convertedResult []T
-
-	var convertedInput []T
-
-	var convertedSlope []T
-
-	convertedResult, ok := result.([]T)
+func calcPRelu[T float32 | float64 | uint32 | uint64 | int32 | int64](input any, slope any) ([]T, error) {
+	convertedInput, ok := ops.IfScalarToSlice(input).([]T)
 	if !ok {
-		return ops.ErrTypeAssert("numeric list", result)
+		return nil, ops.ErrTypeAssert("numeric list", input)
 	}
 
-	convertedInput, ok = input.([]T)
+	convertedSlope, ok := ops.IfScalarToSlice(slope).([]T)
 	if !ok {
-		return ops.ErrTypeAssert("numeric list", input)
+		return nil, ops.ErrTypeAssert("numeric list", slope)
 	}
 
-	convertedSlope, ok = slope.([]T)
-	if !ok {
-		return ops.ErrTypeAssert("numeric list", slope)
-	}
+	result := make([]T, len(convertedInput))
 
 	for i, v := range convertedInput {
 		if v < 0 {
 			v = convertedSlope[i] * v
 		}
 
-		convertedResult[i] = v
+		result[i] = v
 	}
 
-	return nil
+	return result, nil
 }
